@@ -100,6 +100,43 @@ Theorem c03_history_independence_variational :
 Proof. intros b h c. exact (history_independence_gen (fam_var b) (wf_var b) h c). Qed.
 Print Assumptions c03_history_independence_variational.
 
+(* exact GP whose training targets contain NaNs: predictions under observation_nan_policy 'ignore' / 'mask' /
+   'fill' (and fast_pred_var + 'mask') in every order, interleaved with every other operation: mean_cache is
+   memoised per policy, the mask applied to the covariance is recomputed per call *)
+Theorem c03_history_independence_exact_nan_targets :
+  forall h c, admissible all_on fam_exact_nan init h = true -> c < 12 ->
+    training (run all_on fam_exact_nan init h) = false ->
+    predict_out all_on fam_exact_nan (run all_on fam_exact_nan init h) c =
+    predict_out all_on fam_exact_nan (fresh (pv (run all_on fam_exact_nan init h)) (dv (run all_on fam_exact_nan init h)) false) c.
+Proof. intros h c. exact (history_independence_gen fam_exact_nan wf_exact_nan h c). Qed.
+Print Assumptions c03_history_independence_exact_nan_targets.
+
+(* KISS-GP on a data-following grid (GridInterpolationKernel without grid_bounds): calls whose inputs span
+   different ranges (test inputs inside / outside the training range) replace the grid; the cached K_UU is
+   discarded with it *)
+Theorem c03_history_independence_kiss_data_following_grid :
+  forall h c, admissible all_on fam_kiss_dyn init h = true -> c < 12 ->
+    training (run all_on fam_kiss_dyn init h) = false ->
+    predict_out all_on fam_kiss_dyn (run all_on fam_kiss_dyn init h) c =
+    predict_out all_on fam_kiss_dyn (fresh (pv (run all_on fam_kiss_dyn init h)) (dv (run all_on fam_kiss_dyn init h)) false) c.
+Proof. intros h c. exact (history_independence_gen fam_kiss_dyn wf_kiss_dyn h c). Qed.
+Print Assumptions c03_history_independence_kiss_data_following_grid.
+
+(* the grid replacement is necessary (the machine without the guard - K_UU kept when the grid is laid out anew -
+   consults a K_UU computed for another range after Predict(inside), Predict(outside), in either order, also
+   across set_train_data; with it the same history is harmless); a history through all three NaN policies of
+   the NaN-target family ends with one mean_cache entry per policy; both families are well formed *)
+Theorem c03_grid_replacement_refutes_and_nan_example :
+  differs (points_without 12) fam_kiss_dyn [OPredict 0] 3 = true /\
+  differs (points_without 12) fam_kiss_dyn [OPredict 3] 1 = true /\
+  differs (points_without 12) fam_kiss_dyn [OPredict 3; OSetData] 0 = true /\
+  differs all_on fam_kiss_dyn [OPredict 3; OSetData] 0 = false /\
+  admissible all_on fam_exact_nan init ex_hist_nan = true /\
+  map (fun e => (e_slot e, e_key e)) (cch (run all_on fam_exact_nan init ex_hist_nan)) = [(MEAN, 2); (MEAN, 0); (MEAN, 1); (STRAT, 0)] /\
+  wf_family fam_exact_nan = true /\ wf_family fam_kiss_dyn = true.
+Proof. exact grid_and_nan_examples. Qed.
+Print Assumptions c03_grid_replacement_refutes_and_nan_example.
+
 (* EVERY observable operation of every admissible history - posterior predictions in either mode,
    prior-mode calls, non-detached predictions + backward - reports exactly what the freshly
    constructed object holding the same versions (in the same mode) reports.  [indep] is the flag the
